@@ -606,6 +606,18 @@ def c08(tier):
         TT("time_agg_date_%s_last" % tgt, C([("Me_9", time_agg("Me_2", tgt, conf="last"))]), 1)
     TT("flow_to_stock", unop("flow_to_stock", "DS_T"), 3, ["M", "W"])
     TT("stock_to_flow", unop("stock_to_flow", "DS_T"), 3, ["Q", "D"])
+    # time operators over the sub-query of another operator, and other operators over a time-operator result
+    gt0 = binop(">", "Me_1", 0)
+    TT("x_timeshift_of_filter", binop("timeshift", filter_("DS_T", gt0), 1), 2, ["M", "W"])
+    TT("x_filter_of_timeshift", filter_(binop("timeshift", "DS_T", -1), gt0), 2, ["Q", "D"])
+    TT("x_timeshift_of_sum", binop("timeshift", binop("+", "DS_T", "DS_T"), 1), 2, ["A", "S"])
+    TT("x_sum_by_period", agg("sum", "DS_T", "group by", ["Id_2"]), 3, ["M"])
+    TT("x_max_of_timeshift", agg("max", binop("timeshift", "DS_T", 1), "group by", ["Id_2"]), 2, ["Q"])
+    TT("x_flow_of_filter", unop("flow_to_stock", filter_("DS_T", gt0)), 3, ["M"])
+    TT("x_pi_of_timeshift", unop("period_indicator", binop("timeshift", "DS_T", 1)), 2, ["W"])
+    TT("x_union_timeshift", setop("union", [binop("timeshift", "DS_T", 1), "DS_T"]), 2, ["M"])
+    TT("x_calc_year_plus", C([("Me_9", binop("+", unop("getyear", "Me_1"), unop("getmonth", "Me_2")))]), 1, ["Q"])
+    TT("x_filter_on_year", filter_("DS_M", binop(">", unop("getyear", "Me_2"), 2000)), 1)
     for op in ("=", "<>", "<", ">", "<=", ">="):
         TT("cmp_tp_%s" % sn(op), C([("Me_9", binop(op, "Me_1", "Me_3"))]), 1)
         TT("cmp_date_%s" % sn(op), C([("Me_9", binop(op, "Me_2", "Me_4"))]), 1)
